@@ -290,6 +290,7 @@ def run_shard(spec, rec):
                       ("$..[?@]", {"a": 1, "b": 2, "c": 3, "d": 4}), ("$.*", {"d": 1, "c": 2, "b": 3, "a": 4, "": 5})):
         one(rec, R, nd, det, abn, orders, text, doc, spec["max_leaves"], exhaustive=True)
         rec.feat("small:wide-object-battery")
+    wide_part(rec, R, nd)
     for i in range(spec["small"]):
         if i % 2 == 0:
             text = R.choice(["$..[*]", "$..*", "$..[0]", "$..[?@]", "$[*]..[*]", "$..[*]..[0]", "$..[?@ == $[0][0]]", "$..[?$[1]]"])
@@ -414,6 +415,52 @@ def one(rec, R, nd, det, abn, orders, text, doc, max_leaves, exhaustive):
                                                                      observed_orderings=len(results), permitted_orderings=len(permitted)))
         else:
             rec.feat("exhaustiveness:all-permitted-orderings-produced")
+
+
+def wide_part(rec, R, nd):
+    """Wide documents (hundreds of containers pending at once, more than a thousand visited): too many orderings to enumerate,
+    but each observed ordering is decided by the linear-time membership test of vf/oracle/order.py:verify_desc_wild."""
+    from ..oracle.order import verify_desc_wild
+    docs = []
+    for n in (300, 700):
+        docs.append([[[i], [i + 1], i] for i in range(n)])
+        docs.append({"k%d" % i: [[i], {"a": [i]}] for i in range(n)})
+        docs.append([[{"a": i, "b": [i]}, [i, [i]], [], {}] if i % 3 else i for i in range(n)])
+    docs.append([[[[j] for j in range(4)] for i in range(40)] for _ in range(9)])
+    for di, doc in enumerate(docs):
+        for text in ("$..[*]", "$..*"):
+            for trial in range(2):
+                CH.rand = _random.Random(R.getrandbits(32))
+                try:
+                    with guard(120):
+                        o = mon.observe(lambda: locs(nd.find(text, doc)))
+                except CaseTimeout:
+                    rec.timeout("wide %d" % di)
+                    continue
+                finally:
+                    CH.rand = None
+                rec.monitor("M-validity-wide")
+                rec.case(("wide", di, text, trial), True)
+                rec.feat("wide:ordering-verified")
+                if o[0] != "ok":
+                    rec.violation("raises-" + type(o[1]).__name__, {"query": text, "document": "wide document #%d (%s)" % (di, D.short(doc, 120)), "observed": mon.describe_outcome(o)})
+                    continue
+                why = verify_desc_wild(doc, list(o[1]))
+                if why is not None:
+                    n_base = sum(1 for _ in _walk_children(doc))
+                    key = "not-a-permutation-of-the-deterministic-result" if len(o[1]) != n_base or len(set(o[1])) != len(o[1]) else "ordering-not-permitted"
+                    rec.violation(key, {"query": text, "document": "wide document #%d (%s)" % (di, D.short(doc, 200)), "nodes": len(o[1]), "nodes_expected": n_base, "reason": why})
+
+
+def _walk_children(v):
+    if isinstance(v, list):
+        for x in v:
+            yield x
+            yield from _walk_children(x)
+    elif isinstance(v, dict):
+        for x in v.values():
+            yield x
+            yield from _walk_children(x)
 
 
 def classify_invalid(r, base):
